@@ -39,13 +39,13 @@ cov["tables"] = {"exhaustive": True, "counters": t_stats,
 
 # ---- layer 2: hand-over
 # pinned input of the finding handover/no-termination, replayed first in every run
-pin_stats, _ = hcheck.run_shards(chk, exe_hand, ["--pinned"], 1, timeout=300, env=env1, abort_key="handover/abort")
+pin_stats, _ = hcheck.run_shards(chk, exe_hand, ["--pinned"], 1, timeout=200, env=env1, abort_key="handover/abort", hang_key="handover/no-termination")
 cov["pinned_witnesses_replayed"] = pin_stats.get("pinned_cases", 0)
 shards = 8 if quick else 16
 cases = 250 if quick else 5000
 packets = 2000
 h_stats, h_statd = hcheck.run_shards(chk, exe_hand, ["--cases", str(cases), "--packets", str(packets)], shards,
-                                     timeout=900 if quick else 14400, env=env1, abort_key="handover/abort")
+                                     timeout=600 if quick else 14400, env=env1, abort_key="handover/abort", hang_key="handover/no-termination")
 cov["handover"] = {"counters": {k: v for k, v in sorted(h_stats.items()) if not k.startswith("handover_entry_")},
                    "entry_classes_at_handover": {c: h_stats.get("handover_entry_" + c, 0) for c in CLASSES},
                    "max_error_over_tolerance": h_statd}
